@@ -654,6 +654,57 @@ func ruleLintReuse(c *Ctx, r *Rep) {
 		}
 	}
 	r.Infof("%d truncate/buffer-bytes sites examined", n)
+	// (a'') the same for any shortened view: append(x[:k], …) writes into x behind position k. Where x itself is handed
+	// to a call afterwards (the bytes that are about to be hashed), that call sees the overwritten elements.
+	for _, fn := range c.Funcs {
+		m := 0
+		for _, b := range fn.Blocks {
+			for _, ins := range b.Instrs {
+				sl, ok := ins.(*ssa.Slice)
+				if !ok || sl.High == nil || sl.Max != nil {
+					continue
+				}
+				if k, isK := sl.High.(*ssa.Const); isK && k.Value != nil && k.Int64() == 0 {
+					continue // the [:0] form is decided above
+				}
+				if _, isSlice := sl.X.Type().Underlying().(*types.Slice); !isSlice {
+					continue
+				}
+				var appendCalls []*ssa.Call
+				for _, ref := range *sl.Referrers() {
+					if call, ok := ref.(*ssa.Call); ok {
+						if bi, isB := call.Call.Value.(*ssa.Builtin); isB && bi.Name() == "append" && len(call.Call.Args) > 0 && call.Call.Args[0] == ssa.Value(sl) {
+							appendCalls = append(appendCalls, call)
+						}
+					}
+				}
+				if len(appendCalls) == 0 {
+					continue
+				}
+				m++
+				usedAfter := ""
+				for _, ref := range *sl.X.Referrers() {
+					if ref == ssa.Instruction(sl) {
+						continue
+					}
+					ci, isCall := ref.(ssa.CallInstruction)
+					if !isCall {
+						continue
+					}
+					if bi, isB := ci.Common().Value.(*ssa.Builtin); isB && (bi.Name() == "len" || bi.Name() == "cap") {
+						continue
+					}
+					for _, ac := range appendCalls {
+						if ssa.Instruction(ac) != ref && reachableFromInstr(ac, ci) {
+							usedAfter = calleeFullName(ci) + " at " + c.Pos(ci.Pos())
+						}
+					}
+				}
+				r.Check(usedAfter == "", sprintf("append-into-view|%s#%d", c.FuncKey(fn), m), c.Pos(sl.Pos()), "a list is not handed on after an append to a shortened view of it has overwritten its elements", usedAfter)
+			}
+		}
+	}
+
 }
 
 // derivesFrom: v is computed from target (through append, phi, slice).
